@@ -67,6 +67,12 @@ def job_list(ctx, composite_only=False, cap_quick=2500, cap_thorough=20000):
     for k in range(ctx.n(5, 16)):
         j = genconfigs.soft_spheres_cells(rng)
         gen.append({**j, "seed": ctx.seed * 1000 + 400 + k, "max_legs": cap, "kind": "generated-cuboid"})
+    # "however long the run is": every third generated run starts with the heap scheduler's lazy-deletion counters just below the C
+    # `unsigned int` range, i.e. in the state a production run reaches after ~4.3e9 trashed candidates per handler; the wrap-around
+    # happens a few dozen to a few hundred legs into the traced run and must be invisible (runtrace: `prime_counters`)
+    for i, j in enumerate(gen):
+        if i % 3 == 1:
+            j["prime_counters"] = 2 ** 32 - 40 - (i * 97) % 600
     jobs += gen
     if composite_only:
         jobs = [j for j in jobs if "coulomb_atoms" not in j["ini"]]
